@@ -217,6 +217,51 @@ def hmac_ct_window(chk):
         chk.violation(R, inst, src, 'po takes the values %s' % sorted(vals), key='%s po' % R)
 
 
+def hmac_key_rules(chk):
+    """RFC 2104 2: a key longer than the block size B is first hashed; a key of at most B bytes (B included) is used as is, padded with
+    zeros; inner / outer pads are 0x36 / 0x5C.  Decided by partial evaluation of br_hmac_key_init with the hash descriptor of SHA-256
+    (B = 64) and SHA-384 (B = 128) and the key length fixed just below, at and just above B."""
+    from .. import oblig
+    R = 'hmac-key-processing'
+    src = 'src/mac/hmac.c'
+    U = oblig.funit(src)
+    fn = 'br_hmac_key_init'
+    F = U.func(fn)
+    bs_calls = U.call_sites(fn, callee='block_size')
+    ds_calls = U.call_sites(fn, callee='br_digest_size')
+    if not bs_calls or not ds_calls:
+        raise AnalysisBroken('br_hmac_key_init: block_size() / br_digest_size() calls not found')
+    pk = F.f['params'][3]
+    n = 0
+    for g, B, H in (('br_sha256_vtable', 64, 32), ('br_sha384_vtable', 128, 48)):
+        for klen in (B - 1, B, B + 1):
+            hy = [dict(kind='pin', n=x['n'], value=B) for x in bs_calls] + [dict(kind='pin', n=x['n'], value=H) for x in ds_calls]
+            hy.append(dict(kind='assume', n=pk['n'], ty=pk['ty'], pred='eq', value=klen, param=True))
+            Fo = U.optimise(fn, hy, ('process_key', 'block_size', 'br_digest_size'))
+            calls = [c for c in fold._reach_insts(Fo) if c['op'] == 'call' and c.get('callee') == 'process_key']
+            inst = 'br_hmac_key_init (%s, B = %d): key of %d bytes is %s' % (g[3:-7], B, klen, 'hashed first' if klen > B else 'used as is')
+            n += 1
+            det = []
+            okk = len(calls) == 2
+            for c in calls:
+                kp, kl, bb = c['ops'][2], c['ops'][3], c['ops'][4]
+                b, _o = Fo.addr_of(kp)
+                direct = (b == {'k': 'a', 'v': 2})
+                ln = kl['v'] if kl['k'] == 'c' else None
+                det.append('%s key, %s bytes, pad 0x%02X' % ('caller' if direct else 'digested', ln, bb['v'] & 0xFF if bb['k'] == 'c' else -1))
+                if klen > B:
+                    okk = okk and (not direct) and ln == H
+                else:
+                    okk = okk and direct and ln == klen
+            pads = sorted(c['ops'][4]['v'] & 0xFF for c in calls if c['ops'][4]['k'] == 'c')
+            okk = okk and pads == [0x36, 0x5C]
+            if okk:
+                chk.ok(R, inst, src, '; '.join(det))
+            else:
+                chk.violation(R, inst, src, 'process_key is called with: %s' % '; '.join(det), key='%s %s %d' % (R, g, klen))
+    chk.floor('HMAC key cases', n, 6)
+
+
 def run(tier):
     chk = report.Check('C13', tier,
                        'Constant tables and class descriptors of the hash functions compared with values generated from the standards '
@@ -357,5 +402,6 @@ def run(tier):
     prf_sites(chk)
     tls10_prf_shape(chk)
     hmac_ct_window(chk)
+    hmac_key_rules(chk)
     chk.floor('tables', sum(1 for o in chk.obls if o['rule'] == 'hash-constants'), 15)
     return chk.finish()
